@@ -354,6 +354,29 @@ def case(spec):
                 if r_.rc == 0 or r_.out:
                     res.violation('empty-drive-delivers-data', 'drive %d is empty but type succeeded' % d,
                                   {'history': hist, 'run': r_.brief()}, files, r_.argv)
+            # a drive argument with a suffix that is no volume letter: the command either refuses it or addresses
+            # the drive the leading number names -- never another surface (such as the current drive)
+            titled = [d for d in sorted(prev_map) if prev_map[d] in title_of]
+            if len(titled) >= 2:
+                d = rng.choice(titled[1:])
+                junk = '%d%s' % (d, rng.choice(['x', 'junk', ' ', '.', 'z1', 'AB', '%', '_']))
+                cmdj = rng.choice(['cat', 'free', 'space', 'show-titles', 'sector-map', 'info'])
+                if cmdj == 'info':
+                    clean, dirty = ['info', ':%d.#.*' % d], ['info', ':%s.#.*' % junk]
+                else:
+                    clean, dirty = [cmdj, str(d)], [cmdj, junk]
+                ra = run([dfsbin] + opts + clean, timeout=60)
+                rb = run([dfsbin] + opts + dirty, timeout=60)
+                res.execs += 2
+                res.events += 1
+                res.add('junk_suffix_probes', 1)
+                kb = clean_failure_key(rb, (0, 1, 2))
+                if kb:
+                    res.violation('attach:%s' % kb, 'unclean termination for drive argument %r' % junk, rb.brief(), files, rb.argv)
+                elif not ((rb.rc != 0 and not rb.out) or (rb.rc, rb.out) == (ra.rc, ra.out)):
+                    res.violation('wrong-surface-read:junk-suffix', '%s with the drive argument %r neither failed nor '
+                                  'addressed drive %d' % (cmdj, junk, d), {'history': hist, 'clean': ra.brief(), 'junk': rb.brief()},
+                                  files, rb.argv)
         res.sample = {'history': list(hist), 'final_map': {str(d): str(v) for d, v in sorted(prev_map.items())[:8]}}
     return res
 
